@@ -276,8 +276,13 @@ _STOP = mp.Value("i", 0)     # set by the parent once enough hangs were seen: th
 
 def _alarm(*_):
     # fires again and again (the timer is periodic): a loop that swallows BaseException swallows the first Hang
-    _HUNG["now"] = True
     _HUNG["fired"] = _HUNG.get("fired", 0) + 1
+    if _HUNG["fired"] < 3:
+        # One firing is not a hang: a full garbage collection in a worker that holds millions of jobs burns seconds
+        # of CPU inside a single replay.  A pause is over when the handler gets to run and the replay then finishes
+        # at once; a real loop is still there half a second and a second of CPU time later.
+        return
+    _HUNG["now"] = True
     if _HUNG["fired"] > 60:      # half a minute of CPU after the first firing: nothing cooperative helped
         os._exit(70)             # the parent notices the missing result (bounded wait) and reports the hang
     raise Hang()
